@@ -121,9 +121,10 @@ RequiredModel(s) ==
     [] s.kind \in {"ShowContinuousQueries", "ShowQueries"} -> <<Pr(FALSE, "", "READ")>>
     [] s.kind = "ShowDatabases" -> <<Pr(FALSE, "", "NO PRIVILEGES")>>
     [] s.kind \in {"ShowSeriesCardinality", "ShowMeasurementCardinality"} ->
-         IF ~s.exact THEN <<Pr(FALSE, s.on, "READ")>> ELSE SourcesModel(s.srcs)
+         IF ~s.exact \/ s.srcs = <<>> THEN <<Pr(FALSE, s.on, "READ")>> ELSE SourcesModel(s.srcs)
     [] s.kind \in {"ShowTagKeyCardinality", "ShowTagValuesCardinality", "ShowFieldKeyCardinality"} ->
-         SourcesModel(s.srcs)
+         \* sourcesOrDatabasePrivileges (repair of the empty-list defect): no FROM -> READ on the ON database
+         IF s.srcs = <<>> THEN <<Pr(FALSE, s.on, "READ")>> ELSE SourcesModel(s.srcs)
     [] s.kind = "CreateContinuousQuery" ->
          <<Pr(FALSE, s.on, "READ")>> \o (IF s.tgt.db # "" THEN <<Pr(FALSE, s.tgt.db, "WRITE")>> ELSE <<>>)
     [] OTHER -> <<>>
@@ -141,7 +142,9 @@ Dev_EmptyPrivilegesCardinalityNoFrom(s, list) ==
   DelegatesToSources(s) /\ s.srcs = <<>> /\ list = <<>>
 
 \* pass M invariant body: the design satisfies the property except for the named deviation
-DesignOK(s) == LET l == RequiredModel(s) IN Holds(s, l) \/ Dev_EmptyPrivilegesCardinalityNoFrom(s, l)
+\* (the deviation was repaired in /repo; the predicate stays so that the judge names the
+\* failure shape if it ever returns - it is no longer listed, hence a VIOLATION)
+DesignOK(s) == Holds(s, RequiredModel(s))
 \* the nested SELECTs of a statement, each judged as a SELECT of its own
 DesignSelectsOK(s) ==
   s.kind \in SelectKinds =>
